@@ -60,6 +60,9 @@ package telem
 //@ inline func (f Frame[K]) RawSeries() []Series
 //@ inline func (f Frame[K]) Append(key K, series Series) Frame[K]
 //@ pure func (f Frame[K]) ShouldExcludeRaw(rawIndex int) bool
+//@ pure func (f Frame[K]) Count() int
+//@ pure func (f Frame[K]) KeepKeys(keys []K) Frame[K]
+//@ inline func (f Frame[K]) RawKeyAt(i int) K
 
 //@ # ---- alignments (bit packing of domain index and sample index): uninterpreted for callers
 //@ # that only pass them along (pragma abstract)
